@@ -1601,7 +1601,22 @@ fn neg_fam_caps(mp: &str, ap: &str, enh: &str, asn: u32, ord: &str) -> Vec<packe
 }
 
 /// One end: the real FSM with `local` capabilities receives an OPEN carrying `remote`.
+/// The peer's capabilities as this end receives them: written into an OPEN and read back by the real decoder (which is where
+/// undefined values are dropped or kept).
+fn neg_over_the_wire(caps: &[packet::Capability], asn: u32) -> Vec<packet::Capability> {
+    let open = bgp::Message::Open(bgp::Open { as_number: asn, holdtime: HoldTime::new(90).unwrap(), router_id: u32::from(Ipv4Addr::new(10, 0, 0, 2)), capability: caps.to_vec() });
+    let mut buf = bytes::BytesMut::new();
+    if bgp::PeerCodec::new().encode_to(&open, &mut buf).is_err() {
+        return caps.to_vec();
+    }
+    match bgp::PeerCodec::new().try_parse(&mut buf) {
+        Ok(Some(bgp::ParsedMessage::Open(o))) => o.capability,
+        _ => caps.to_vec(),
+    }
+}
+
 fn neg_fsm_side(local: &[packet::Capability], remote: &[packet::Capability], local_asn: u32, remote_asn: u32) -> Option<(bgp::PeerCodec, Vec<Family>)> {
+    let remote = &neg_over_the_wire(remote, remote_asn)[..];
     let mut send_max: FnvHashMap<Family, usize> = FnvHashMap::default();
     send_max.insert(Family::IPV4, 4);
     send_max.insert(Family::IPV4_VPN, 4);
